@@ -596,6 +596,82 @@ func (c14) Run(ctx *Ctx, ci interface{}) (o Outcome) {
 			return
 		}
 	}
+	if hasLower && !hasSpecial {
+		// mixed case: counts are case-folded. Whether a lower-case n / x is "the N" that is not considered is not said:
+		// every reading is accepted - fold first and then leave N (or N and X) out, or leave the upper-case N (N and X)
+		// out and then fold - but the answer must be one of them
+		okV, okI := map[string]bool{}, map[string]bool{}
+		for mode := 0; mode < 3; mode++ { // 2: no folding at all (the documentation of the variable sites does not mention case)
+			for both := 0; both < 2; both++ {
+				v := 0
+				inf := []int{}
+				for site := 0; site < L; site++ {
+					cnt := map[byte]int{}
+					for i := 0; i < n; i++ {
+						ch := a.Seqs[i][site]
+						up := ch
+						if up >= 'a' && up <= 'z' {
+							up -= 32
+						}
+						t := ch // the character the exclusion looks at
+						if mode == 0 {
+							t = up
+						}
+						if mode == 2 {
+							up = ch
+						}
+						if t == '-' || (both == 1 && (t == 'N' || t == 'X')) {
+							continue
+						}
+						cnt[up]++
+					}
+					if len(cnt) > 1 {
+						v++
+					}
+					for _, skip := range []byte{allc, 0} {
+						k := 0
+						for ch, c := range cnt {
+							if ch != skip && c >= 2 {
+								k++
+							}
+						}
+						_ = skip
+						if k >= 2 {
+							okI[fmt.Sprintf("%d/%d/%d:%d", mode, both, skip, site)] = true
+						}
+					}
+					_ = inf
+				}
+				okV[fmt.Sprint(v)] = true
+			}
+		}
+		// the reported list must be the list of one reading
+		matched := false
+		for mode := 0; mode < 3 && !matched; mode++ {
+			for both := 0; both < 2 && !matched; both++ {
+				for _, skip := range []byte{allc, 0} {
+					lst := []int{}
+					for site := 0; site < L; site++ {
+						if okI[fmt.Sprintf("%d/%d/%d:%d", mode, both, skip, site)] {
+							lst = append(lst, site)
+						}
+					}
+					if s0.disc["InformativeSites"] == fmt.Sprint(lst) {
+						matched = true
+					}
+				}
+			}
+		}
+		if !matched {
+			o.Fail("definition:InformativeSites", "informative sites %s reported for a mixed-case alignment: the list of no reading of the definition (case-folded counts, N / X left out before or after folding)\n%s", s0.disc["InformativeSites"], desc())
+			return
+		}
+		if !okV[s0.disc["NbVariableSites"]] {
+			o.Fail("definition:NbVariableSites", "%s variable sites reported for a mixed-case alignment: the number of no reading of the definition\n%s", s0.disc["NbVariableSites"], desc())
+			return
+		}
+		o.Add("mixed_case_variable_informative_checked", 1)
+	}
 	if !hasLower && !hasSpecial {
 		// variable and informative sites under both readings of "N/X are not considered"
 		var vA, vB int
